@@ -3,7 +3,7 @@ through harness/sim.py with plugin classes generated from action tables, records
 log of everything observable (hook calls with their argument, connect attempts, bytes queued for
 upstream/client, the teardown decision, escaping exceptions, default access log, socket closes) and
 renders cases as Coq terms for Net/PluginCases.v."""
-import sys, os, base64
+import sys, os, base64, selectors
 sys.path.insert(0, os.path.dirname(os.path.dirname(os.path.abspath(__file__))))
 import common as C
 import sim as S
@@ -56,12 +56,12 @@ def header_dict(lines):
     return [(k, nv[0], nv[1]) for k, nv in d.items()]
 
 
-def abstract_request(spec):
+def abstract_request(spec, buffer=b''):
     """the parsed record the model works on, computed from the generator's own knowledge of the request
     (spec carries host/port/path explicitly); the first hook's logged argument checks it against the real parser"""
     tunnel = spec['method'] == b'CONNECT'
     return dict(method=spec['method'], host=spec['host'], port=spec['port'], path=spec['path'], version=spec['version'],
-                headers=header_dict(spec['lines']), body=(spec.get('body') or None), tunnel=tunnel)
+                headers=header_dict(spec['lines']), body=(spec.get('body') or None), tunnel=tunnel, buffer=buffer)
 
 
 def canon_request(req):
@@ -69,7 +69,8 @@ def canon_request(req):
     return dict(method=bytes(req.method or b''), host=None if req.host is None else bytes(req.host), port=req.port,
                 path=None if req.path is None else bytes(req.path), version=bytes(req.version or b''),
                 headers=[(bytes(k), bytes(v[0]), bytes(v[1])) for k, v in (req.headers or {}).items()],
-                body=None if b is None else bytes(b), tunnel=bool(req.is_https_tunnel))
+                body=None if b is None else bytes(b), tunnel=bool(req.is_https_tunnel),
+                buffer=bytes(req.buffer) if req.buffer else b'')
 
 
 def canon_ctx(ctx):
@@ -78,7 +79,15 @@ def canon_ctx(ctx):
 
 
 # ------------------------------------------------------------------ generated plugin classes
-def interp(act, n, x, modify, delete):
+def fresh_request(spec):
+    """a NEW HttpParser object (not the one the hook was given): what a redirecting / rewriting plugin returns"""
+    from proxy.http.parser import HttpParser
+    r = HttpParser.request(wire(spec))
+    assert r.is_complete
+    return r
+
+
+def interp(act, n, x, modify, delete, fresh=None):
     """act is a JSON-able list; n = number of earlier invocations of this hook on this instance"""
     from proxy.http.exception import HttpRequestRejected
     k = act[0]
@@ -88,6 +97,8 @@ def interp(act, n, x, modify, delete):
         return modify(act[1], x)
     if k == 'del':
         return delete(act[1], x)
+    if k == 'fresh':
+        return fresh(act[1], x) if fresh else x
     if k == 'drop':
         return None
     if k == 'reject':
@@ -95,7 +106,7 @@ def interp(act, n, x, modify, delete):
     if k == 'raise':
         raise mk_exc(act[1])
     if k == 'after':
-        return interp(act[2] if n < act[1] else act[3], n, x, modify, delete)
+        return interp(act[2] if n < act[1] else act[3], n, x, modify, delete, fresh)
     raise ValueError(act)
 
 
@@ -121,11 +132,11 @@ def make_plugin_class(table):
     def ctx_del(k, c):
         c.pop(k.decode(), None); return c
 
-    def run(self, hk, arg, canon, act, x, modify, delete):
+    def run(self, hk, arg, canon, act, x, modify, delete, fresh=None):
         LOG.append(('call', pid, hk, arg))
         i = len(LOG) - 1
         try:
-            r = interp(act, count(self, hk), x, modify, delete)
+            r = interp(act, count(self, hk), x, modify, delete, fresh)
         except Exception as e:
             RETS[i] = ('raise', type(e).__name__, getattr(e, 'status_code', None), getattr(e, 'reason', None), getattr(e, 'body', None))
             raise
@@ -133,10 +144,10 @@ def make_plugin_class(table):
         return r
 
     def before_upstream_connection(self, request):
-        return run(self, 'BUC', ('req', canon_request(request)), canon_request, table['buc'], request, req_mod, req_del)
+        return run(self, 'BUC', ('req', canon_request(request)), canon_request, table['buc'], request, req_mod, req_del, lambda sp, r: fresh_request(sp))
 
     def handle_client_request(self, request):
-        return run(self, 'HCR', ('req', canon_request(request)), canon_request, table['hcr'], request, req_mod, req_del)
+        return run(self, 'HCR', ('req', canon_request(request)), canon_request, table['hcr'], request, req_mod, req_del, lambda sp, r: fresh_request(sp))
 
     def handle_client_data(self, raw):
         return run(self, 'HCD', ('bytes', bytes(raw)), bytes, table['hcd'], raw, lambda m, x: memoryview(bytes(x) + m), lambda k, x: x)
@@ -240,6 +251,10 @@ def make_flags(case):
         opts['basic_auth'] = case['basic_auth'].decode('latin-1')
     if case.get('disable'):
         opts['disable_headers'] = list(case['disable'])
+    if case.get('max_send'):
+        opts['max_sendbuf_size'] = case['max_send']
+    if case.get('threaded'):
+        opts['threadless'] = False
     import logging
     logging.disable(logging.CRITICAL)
     return S.make_flags(**opts)
@@ -252,6 +267,28 @@ def chain_ids(flags):
         nm = k.__qualname__
         d[nm] = getattr(k, '_verif_id', 0 if k.__name__ == 'AuthPlugin' else 999)
     return list(d.values())
+
+
+class FakeSelector:
+    """stands for selectors.DefaultSelector() of the threaded handler: whatever is registered for writing is ready"""
+    def __init__(self):
+        self.reg = {}
+
+    def register(self, fileobj, events, data=None):
+        if fileobj in self.reg:
+            raise KeyError(fileobj)
+        self.reg[fileobj] = events
+        return selectors.SelectorKey(fileobj, getattr(fileobj, 'fd', 0), events, data)
+
+    def unregister(self, fileobj):
+        ev = self.reg.pop(fileobj)
+        return selectors.SelectorKey(fileobj, getattr(fileobj, 'fd', 0), ev, None)
+
+    def select(self, timeout=None):
+        return [(selectors.SelectorKey(f, getattr(f, 'fd', 0), ev, None), ev) for f, ev in self.reg.items()]
+
+    def close(self):
+        self.reg.clear()
 
 
 def run_connection(case):
@@ -288,6 +325,10 @@ def run_connection(case):
             except Exception as e:
                 LOG.append(('escaped', C.exn_code(e)))
                 raise
+
+        def _flush(self):
+            LOG.append(('clientflush',))
+            return super()._flush()
 
         def shutdown(self):
             try:
@@ -349,14 +390,35 @@ def run_connection(case):
                 cc()
             sim.client.close = cclose
 
+            if case.get('threaded'):
+                sim.h.selector = FakeSelector()
+            state = dict(final_flush=False, by_handler=False)
+            orig_teardown = sim.teardown
+
+            def teardown():
+                if not sim.torn:
+                    # the input of the model's shutdown: threaded mode with output still pending
+                    state['final_flush'] = bool(sim.h.selector) and sim.h.work.has_buffer()
+                orig_teardown()
+            sim.teardown = teardown
+
             executed = 0
-            for st in steps:
+            i = 0
+            while i < len(steps):
+                st = steps[i]
                 if sim.torn:
                     break
                 executed += 1
                 LOG.append(('step', executed - 1))      # harness marker (not an observable; dropped from the Coq term)
                 if st[0] == 'first':
-                    for seg in st[3]:
+                    segs = list(st[3])
+                    # client steps marked 'same' arrive in the SAME recv segment as the end of the first request
+                    while i + 1 < len(steps) and steps[i + 1][0] == 'client' and len(steps[i + 1]) > 3 and steps[i + 1][3] == 'same':
+                        i += 1
+                        executed += 1
+                        LOG.append(('step', executed - 1))
+                        segs[-1] = segs[-1] + steps[i][1]
+                    for seg in segs:
                         sim.client.feed(seg)
                         sim.step(r=['client'])
                 elif st[0] == 'client':
@@ -366,6 +428,12 @@ def run_connection(case):
                     if sim.upstreams:
                         sim.upstreams[0].feed(st[1])
                         sim.step(r=['up0'])
+                elif st[0] == 'flush':
+                    # the client socket becomes writable and accepts at most st[1] bytes ('block': EAGAIN)
+                    sim.client.script_send(S.io_error('block') if st[1] == 'block' else st[1])
+                    sim.step(w=['client'])
+                    del sim.client.send_script[:]
+                i += 1
             # however the connection ends
             end = case.get('end', 'shutdown')
             if not sim.torn and not sim.h.reads_teared:
@@ -377,11 +445,17 @@ def run_connection(case):
                     sim.upstreams[0].feed(S.EOF); sim.step(r=['up0'])
                 elif end == 'upstream_reset' and sim.upstreams:
                     sim.upstreams[0].feed(S.io_error('reset')); sim.step(r=['up0'])
-            if not sim.torn:
+            if end == 'pending_shutdown':
+                # the executor shuts the work down while output for the client is still queued (threaded: _flush() in shutdown())
+                if case.get('flush_error'):
+                    sim.client.script_send(S.io_error(case['flush_error']))
+            elif not sim.torn:
                 sim.run(50)
+            state['by_handler'] = sim.torn
             if not sim.torn:
                 sim.teardown()          # idle timeout / executor shutdown
             out = dict(log=list(LOG), rets=dict(RETS), order=order, agent=agent_value(), executed=executed,
+                       final_flush=state['final_flush'], closed_by_handler=state['by_handler'],
                        auth_code=None if flags.auth_code is None else bytes(flags.auth_code),
                        connect_log=list(sim.connect_log), client_out=bytes(sim.client.out),
                        upstream_out=[bytes(u.out) for u in sim.upstreams],
@@ -425,9 +499,9 @@ def cob(b):
 
 def coq_request(r):
     hs = C.coq_list('(%s, (%s, %s))' % (cb(k), cb(n), cb(v)) for k, n, v in r['headers'])
-    txt = '(mkRequest %s %s %s %s %s %s %s %s)' % (
+    txt = '(mkRequest %s %s %s %s %s %s %s %s %s)' % (
         cb(r['method']), cob(r['host']), C.coq_option(lambda n: '(%d)%%Z' % n, r['port']), cob(r['path']), cb(r['version']), hs,
-        cob(r['body']), C.coq_bool(r['tunnel']))
+        cob(r['body']), C.coq_bool(r['tunnel']), cb(r.get('buffer', b'')))
     if _REQ_TABLE is None:
         return txt
     if txt not in _REQ_TABLE:
@@ -449,6 +523,7 @@ def coq_act(a):
     if k == 'pass': return 'APass'
     if k == 'modify': return '(AModify %s)' % cb(a[1])
     if k == 'del': return '(ADel %s)' % cb(a[1])
+    if k == 'fresh': return '(AFresh %s)' % coq_request(abstract_request(a[1]))
     if k == 'drop': return 'ADrop'
     if k == 'reject': return '(AReject %s %s %s)' % (C.coq_option(C.coq_N, a[1]), cob(a[2]), cob(a[3]))
     if k == 'raise': return '(ARaise %s)' % COQ_EXN[a[1]]
@@ -484,6 +559,7 @@ def coq_event(e):
     if k == 'escaped': return 'Escaped %d' % e[1]
     if k == 'accesslog': return 'AccessLog %s' % coq_ctx(e[1])
     if k == 'upclose': return 'UpstreamClose'
+    if k == 'clientflush': return 'ClientFlush'
     if k == 'clientshutdown': return 'ClientShutdown'
     if k == 'clientclose': return 'ClientClose'
     raise ValueError(e)
@@ -508,15 +584,30 @@ def coq_parses(raw, x):
     return C.coq_list(out)
 
 
-def coq_step(st):
+def coq_step(st, same=b''):
     if st[0] == 'first':
-        return 'SFirst %s %s' % (coq_request(abstract_request(st[1])), C.coq_bool(st[2]))
+        # bytes that arrived in the same recv segment sit in request.buffer while the hooks of the first request run
+        return 'SFirst %s %s' % (coq_request(abstract_request(st[1], same)), C.coq_bool(st[2]))
     if st[0] == 'client':
         return 'SClient %s %s' % (cb(st[1]), coq_parses(st[1], st[2]))
     return 'SUpstream %s' % cb(st[1])
 
 
 _REQ_TABLE = None
+
+
+def coq_steps(steps):
+    out = []
+    for i, st in enumerate(steps):
+        if st[0] == 'flush':
+            continue
+        same = b''
+        if st[0] == 'first':
+            j = i + 1
+            while j < len(steps) and steps[j][0] == 'client' and len(steps[j]) > 3 and steps[j][3] == 'same':
+                same += steps[j][1]; j += 1
+        out.append(coq_step(st, same))
+    return out
 
 
 def coq_run_term(case, out):
@@ -534,10 +625,10 @@ def coq_run_term(case, out):
 
 def _coq_run_term(case, out):
     c0 = [(k, '') for k in CTX_KEYS]
-    return 'CRun %s %s %s %s %s %s %s' % (
-        cb(out['agent']), C.coq_list(cb(x) for x in (case.get('disable') or [])), cob(case.get('basic_auth')),
+    return 'CRun %s %s %s %s %s %s %s %s' % (
+        cb(out['agent']), C.coq_list(cb(x) for x in (case.get('disable') or [])), C.coq_bool(out.get('final_flush', False)), cob(case.get('basic_auth')),
         C.coq_list(coq_table(t) for t in case['tables']), coq_ctx(c0),
-        C.coq_list(coq_step(s) for s in case['steps'][:out['executed']]), C.coq_list(coq_event(e) for e in out['log'] if e[0] != 'step'))
+        C.coq_list(coq_steps(case['steps'][:out['executed']])), C.coq_list(coq_event(e) for e in out['log'] if e[0] != 'step'))
 
 
 def coq_order_term(case, out):
@@ -598,6 +689,50 @@ def segments(rng, raw, whole_p=0.6):
     return out
 
 
+def line_pieces(rng, spec, n=None):
+    """wire(spec) cut at header-line boundaries (after the request line or after a header line, before the blank line)"""
+    raw = wire(spec)
+    head_end = raw.index(b'\r\n\r\n')
+    bounds = [i + 2 for i in range(head_end) if raw[i:i + 2] == b'\r\n']
+    k = min(len(bounds), n or rng.choice([1, 1, 2, 3]))
+    cuts = sorted(rng.sample(bounds, k))
+    out, prev = [], 0
+    for c in cuts + [len(raw)]:
+        out.append(raw[prev:c]); prev = c
+    return [x for x in out if x]
+
+
+def later_in_pieces(rng, spec, pieces=None):
+    """client steps delivering one later request in several reads"""
+    ps = pieces or line_pieces(rng, spec)
+    return [['client', x, None] for x in ps[:-1]] + [['client', ps[-1], spec]]
+
+
+def upgrade_request(rng, auth_line=None):
+    """a later websocket-upgrade request whose credentials (if any) come AFTER the Connection/Upgrade lines"""
+    s = mk_request(rng, method=b'GET')
+    s['version'] = b'HTTP/1.1'
+    s['lines'] = [l for l in s['lines'] if not l.lower().startswith(b'proxy-')]
+    s['lines'] += [b'Connection: Upgrade', b'Upgrade: websocket']
+    if auth_line:
+        s['lines'].append(auth_line)
+    s['lines'].append(b'Sec-WebSocket-Key: abc')
+    return s
+
+
+def upgrade_in_pieces(rng, spec):
+    """cut right after the Upgrade line (so that the first read ends with Connection+Upgrade parsed, head unfinished),
+    optionally once more later"""
+    raw = wire(spec)
+    c1 = raw.index(b'Upgrade: websocket\r\n') + len(b'Upgrade: websocket\r\n')
+    pieces = [raw[:c1], raw[c1:]]
+    if rng.random() < 0.5 and len(pieces[1]) > 8:
+        j = pieces[1].index(b'\r\n') + 2
+        if j < len(pieces[1]):
+            pieces = [pieces[0], pieces[1][:j], pieces[1][j:]]
+    return [x for x in pieces if x]
+
+
 def first_step(rng, spec, conn_ok=True):
     return ['first', spec, conn_ok, segments(rng, wire(spec))]
 
@@ -625,12 +760,23 @@ def pick_names(rng, n):
     return names
 
 
+def fresh_spec(rng):
+    """a request a plugin returns INSTEAD of the one it was given: another origin, another path, a marker header"""
+    host = rng.choice([b'fresh.example', b'redirect.test', b'10.9.8.7'])
+    port = rng.choice([80, 8081, 81])
+    path = rng.choice([b'/fresh', b'/moved/here?x=1'])
+    tgt = b'http://' + host + (b'' if port == 80 else b':' + str(port).encode()) + path
+    return dict(method=rng.choice([b'GET', b'HEAD']), target=tgt, version=b'HTTP/1.1',
+                lines=[b'Host: ' + host, b'X-Fresh: ' + bytes([rng.choice(b'abc')])], body=None, host=host, port=port, path=path)
+
+
 def rand_act(rng, kinds, lifecycle=False):
     k = rng.choice(kinds)
     if k == 'pass': return ['pass']
     if k == 'modify': return ['modify', bytes([rng.choice(b'abcxyz')]) + str(rng.randrange(10)).encode()]
     if k == 'del': return ['del', rng.choice([b'user-agent', b'X-Secret', b'host', b'proxy-authorization', b'x-mk-a1'])] \
         if not lifecycle else ['del', rng.choice([b'request_ua', b'response_code', b'server_host', b'mk_a1'])]
+    if k == 'fresh': return ['fresh', fresh_spec(rng)]
     if k == 'drop': return ['drop']
     if k == 'reject':
         st = rng.choice([403, 418, 451, 500, None, 404])
